@@ -178,7 +178,7 @@ class Case:
         return r
     def to_json(self):
         return {"desc": d_sexpr(self.desc),
-                "ops": [("%s%d=%s" % (o[0], o[1], fq(o[2])) if o[0] in ("u", "q", "v") else "%s%d" % (o[0], o[1])) for o in self.ops][:400],
+                "ops": [("%s%d=%s" % (o[0], o[1], fq(o[2])) if o[0] in ("u", "q", "v") else "%s%d" % (o[0], o[1])) for o in self.ops][:20000],
                 "impl": ([b.js() for b in self.obs] if self.obs else None), "ctor_ok": self.ctor_ok, "meta": self.meta}
     @staticmethod
     def from_json(j):
@@ -433,7 +433,7 @@ def float_correspondence(tag, cases):
             ops = []
             for o in c.ops:
                 if o[0] in ("u", "q", "v"):
-                    ops.append("OU %d %s" % (o[1], fq_coq(o[2])))
+                    ops.append("OU %d %s" % (o[1], f64_sme(int(o[2][1:], 16)) if isinstance(o[2], str) else fq_coq(o[2])))
                 else:
                     ops.append("OL %d" % o[1] if o[0] == "l" else "OC %d" % o[1])
             exp = []
